@@ -2,6 +2,7 @@ package main
 
 import (
 	"go/ast"
+	"go/token"
 	"strings"
 )
 
@@ -9,6 +10,8 @@ import (
 func (c *ctx) parChunkFacts() {
 	c.lean.WriteString("\n/-! make.go: pChunker.syncWith / start / IndexFromFile -/\n")
 	var loopCond, matchCond, nullCond, nInit, nStep, numNull, skipCond, stopCond, finalCond ast.Expr
+	counter := ""
+	negated := false
 	if fd := c.funcDecl(c.files, "pChunker", "syncWith"); fd != nil {
 		walk(fd.Body, func(n ast.Node) bool {
 			switch t := n.(type) {
@@ -25,17 +28,26 @@ func (c *ctx) parChunkFacts() {
 					nullCond = t.Cond
 				}
 			case *ast.AssignStmt:
-				if len(t.Lhs) == 1 && exprString(t.Lhs[0]) == "n" && len(t.Rhs) == 1 {
-					if t.Tok.String() == "=" && nInit == nil {
+				// the counter of proven zero bytes: whatever it is called, it is the variable that is set to
+				// `prev.Start + prev.Size - chunk.Start` and then grows by the null chunk's size
+				if len(t.Lhs) == 1 && len(t.Rhs) == 1 {
+					name := exprString(t.Lhs[0])
+					rs := exprString(t.Rhs[0])
+					if (t.Tok.String() == "=" || t.Tok.String() == ":=") && nInit == nil && strings.Contains(rs, "prev.Start") && strings.Contains(rs, "chunk.Start") {
 						nInit = t.Rhs[0]
+						counter = name
 					}
-					if t.Tok.String() == "+=" && nStep == nil {
+					if t.Tok.String() == "+=" && nStep == nil && counter != "" && name == counter {
 						nStep = t.Rhs[0]
 					}
 				}
 			}
 			return true
 		})
+	}
+	// `if !(in a run of null chunks) { return false, 0 }` is the same decision as `if in a run { … }`
+	if be, ok := nullCond.(*ast.BinaryExpr); ok && be.Op.String() == "||" {
+		negated = true
 	}
 	if fd := c.funcDecl(c.files, "pChunker", "start"); fd != nil {
 		walk(fd.Body, func(n ast.Node) bool {
@@ -71,6 +83,13 @@ func (c *ctx) parChunkFacts() {
 		"uint64(len(c.nullChunk.Data))": "max", "len(c.nullChunk.Data)": "max", "zeroes": "zeroes", "int(zeroes)": "zeroes",
 		"c.next!=nil": "hasNext", "c.next.active()": "nextActive", "len(c.next.results)": "nextLen",
 		"index.Length()": "ilen", "uint64(index.Length())": "ilen", "size": "size"}
+	if negated { // De Morgan: the atoms appear as `!=`, the whole condition is the negation
+		env["c.sync.ID!=c.nullChunk.ID"] = "(!syncNull)"
+		env["prev.ID!=c.nullChunk.ID"] = "(!prevNull)"
+		nullCond = &ast.UnaryExpr{Op: token.NOT, X: &ast.ParenExpr{X: nullCond}}
+	}
+	c.useLets(c.funcDecl(c.files, "pChunker", "syncWith"), c.funcDecl(c.files, "pChunker", "start"))
+	defer func() { c.lets = nil }()
 	c.emitExpr("par_loopCond", "parLoopCond", "(cs ss : Nat)", "Bool", loopCond, env, "false")
 	c.emitExpr("par_matchCond", "parMatchCond", "(cs cz ss sz : Nat)", "Bool", matchCond, env, "false")
 	c.emitExpr("par_nullCond", "parNullCond", "(syncNull prevNull : Bool)", "Bool", nullCond, env, "false")
